@@ -298,6 +298,7 @@ func (r *Result) AddViolation(rule, key, detail string, replay interface{}) {
 		"property": r.Property,
 		"seed":     Seed(),
 		"tier":     Tier(),
+		"stage":    Stage(),
 		"rule":     rule,
 		"key":      key,
 		"detail":   detail,
